@@ -9,7 +9,7 @@ limit of a bounded sub-reader); the writer contracts say which bits a byte strin
 import z3
 from pyvc.spec import contract, class_spec, inline_ok, loop_invariant
 from pyvc.values import Int, Bool, Str, Opt, ObjOf, Bytes, ByteArray, MutObjOf
-from pyvc.speclib import AND, OR, NOT, IMPLIES, IFF, ITE, EQ, IS_NONE, VAL, ISINST, AS, smt
+from pyvc.speclib import AND, OR, NOT, IMPLIES, IFF, ITE, EQ, IS_NONE, VAL, ISINST, AS, LEN, FORALL_IDX, smt
 from pyvc import speclib
 from pyvc.bittheory import (BITSVAL, BITAT, DLEN, LSB, POW2, H_SPLIT, H_LSB_SPLIT, H_LSB_STEP, H_BEYOND, H_POW2_ADD, H_POW2_MONO)
 from . import common  # noqa
@@ -306,6 +306,7 @@ class _WriterFinish:
 from pyvc.values import Kind, Obj, EnumV, RefSort
 from pyvc.spec import REG
 from . import c12  # noqa: contracts of inclusive_value_range (proved there for every width)
+from . import c02  # noqa: class specs of the array / composite types, ghosts L(T), A(T) (read-only)
 from .common import (BOOLEAN_T, SIGNED_T, UNSIGNED_T, BYTE_T, UTF8_T, FLOAT_T, CASTMODE, SATURATED, TRUNCATED,
                      cast_mode_ord)
 
@@ -348,6 +349,13 @@ def _prim_instances():
 
 def WIDTH(t):
     return t._bit_length
+
+
+def WIDTH_OF(t):
+    """bit_length of a primitive or void type (abstract object)"""
+    if smt():
+        return ITE(ISINST(t, "VoidType"), AS(t, VOID_T)._bit_length, AS(t, PRIMITIVE)._bit_length)
+    return t.bit_length
 
 
 def IS_FLOAT(t):
@@ -449,7 +457,7 @@ class _SerPrim:
 
     def post(s):
         t, o, w = s.schema, s.old.writer, s.writer
-        n = WIDTH(t)
+        n = WIDTH(t) if (not smt() or t.fields is not None) else WIDTH_OF(t)
         out = dict(WRITER_ADVANCED(s, n))
         if smt() and t.fields is None:
             return out  # call site with a symbolic type: only the offset / prefix facts (the wire clause needs the class)
@@ -475,7 +483,7 @@ class _DesPrim:
 
     def post(s):
         t, o, r = s.schema, s.old.reader, s.reader
-        n = WIDTH(t)
+        n = WIDTH(t) if (not smt() or t.fields is not None) else WIDTH_OF(t)
         out = {"advance": r._bit_offset == o._bit_offset + n,
                "frame": AND(SAME_BYTES(r._data, o._data), r._start_offset == o._start_offset, EQ(r._bit_limit, o._bit_limit))}
         if smt() and t.fields is None:
@@ -492,6 +500,238 @@ class _DesPrim:
             out["value"] = s.result == DECODE(t, bits)
             out["value-in-range"] = IN_RANGE(t, s.result)
         return out
+
+
+# ------------------------------------------------------------------------------------------------ array / composite decoding
+from pyvc.values import AnyValue
+from .common import PADDING, FIELD, DELIMITED, SERVICE
+from .c02 import ARRAY, FIXED, VARIABLE, STRUCT, UNION, FIELDS
+
+P7 = ["C06", "C07", "C14"]
+
+
+@class_spec(PADDING)
+class _PaddingSpec:
+    def invariant(self):
+        # PaddingField.__init__ raises TypeParameterError unless the type is void
+        return {"void-type": ISINST(self._data_type, "VoidType")}
+
+
+def READER_UNCHANGED_BUT_POSITION(s):
+    o, r = s.old.reader, s.reader
+    return AND(SAME_BYTES(r._data, o._data), r._start_offset == o._start_offset, EQ(r._bit_limit, o._bit_limit))
+
+
+def HEADER_VALUE(o, t):
+    """the delimiter header read at the old position of the reader (32 bits, zero extended)"""
+    return BITSVAL(o._data, o._bit_offset, EFFECTIVE(o, AS(t, DELIMITED)._delimiter_header_type._bit_length), unfold=False)
+
+
+def REMAINING_AFTER(o, h):
+    """remaining_bits of the reader after h more bits were consumed"""
+    if smt():
+        return ITE(IS_NONE(o._bit_limit), MAX0(8 * DLEN(o._data) - (o._bit_offset + h)),
+                   MAX0(VAL(o._bit_limit) - (o._bit_offset + h - o._start_offset)))
+    if o._bit_limit is None:
+        return max(0, 8 * len(o._data) - (o._bit_offset + h))
+    return max(0, o._bit_limit - (o._bit_offset + h - o._start_offset))
+
+
+def DES_POST(s, t):
+    """What every _deserialize_* function guarantees about the reader, by the class of the type."""
+    o, r = s.old.reader, s.reader
+    return {
+        "frame": READER_UNCHANGED_BUT_POSITION(s),
+        "forward": r._bit_offset >= o._bit_offset,
+        "primitive-width": IMPLIES(ISINST(t, "PrimitiveType", "VoidType"),
+                                   lambda: r._bit_offset == o._bit_offset + (AS(t, PRIMITIVE)._bit_length
+                                                                             if not _is_void(t) else AS(t, VOID_T)._bit_length)),
+        # C14 wire: a delimited object occupies header + 8 * header-value bits whatever the inner type is
+        "delimited-framing": IMPLIES(ISINST(t, "DelimitedType"), lambda: AND(
+            r._bit_offset == o._bit_offset + 32 + 8 * HEADER_VALUE(o, t),
+            8 * HEADER_VALUE(o, t) <= REMAINING_AFTER(o, 32))),
+    }
+
+
+def _is_void(t):
+    if smt():
+        return False  # handled through the two class-specific accessors below
+    return type(t).__name__ == "VoidType"
+
+
+def DES_POST2(s, t):
+    o, r = s.old.reader, s.reader
+    return {
+        "frame": READER_UNCHANGED_BUT_POSITION(s),
+        "forward": r._bit_offset >= o._bit_offset,
+        "primitive-width": IMPLIES(ISINST(t, "PrimitiveType", "VoidType"), lambda: r._bit_offset == o._bit_offset + WIDTH_OF(t)),
+        "delimited-framing": IMPLIES(ISINST(t, "DelimitedType"), lambda: AND(
+            r._bit_offset == o._bit_offset + 32 + 8 * HEADER_VALUE(o, t),
+            8 * HEADER_VALUE(o, t) <= REMAINING_AFTER(o, 32))),
+    }
+
+
+def NESTED(t):
+    """types whose decoding involves validation (anything but primitives and void)"""
+    return NOT(ISINST(t, "PrimitiveType", "VoidType"))
+
+
+DES_RAISES = {
+    # SerDesError family: only from types that carry a length prefix / tag / delimiter header somewhere inside
+    "SerDesError": lambda s: NESTED(s.schema if hasattr(s, "schema") else s.element_type if hasattr(s, "element_type") else s.field_type),
+}
+
+
+def _type_param(s):
+    for n in ("schema", "element_type", "field_type"):
+        if n in s.__dict__:
+            return s.__dict__[n]
+    raise AttributeError("no type parameter")
+
+
+@contract(SD + "_deserialize_element", props=P7)
+class _DesElement:
+    params = dict(reader=MutObjOf(READER), element_type=ObjOf(SERIALIZABLE))
+    returns = AnyValue
+    modifies_params = {"reader": ["_bit_offset"]}
+    raises_only_if = {"SerDesError": lambda s: NESTED(s.element_type), "ValueError": lambda s: NESTED(s.element_type),
+                      "TypeError": lambda s: NESTED(s.element_type)}
+
+    def pre(s):
+        # model invariant: element / field types are never service types (ArrayType / CompositeType constructors)
+        return {"serializable": NOT(ISINST(s.element_type, "ServiceType"))}
+
+    def post(s):
+        return DES_POST2(s, s.element_type)
+
+
+@contract(SD + "_deserialize_field_value", props=P7)
+class _DesField:
+    params = dict(reader=MutObjOf(READER), field_type=ObjOf(SERIALIZABLE))
+    returns = AnyValue
+    modifies_params = {"reader": ["_bit_offset"]}
+    raises_only_if = {"SerDesError": lambda s: NESTED(s.field_type), "ValueError": lambda s: NESTED(s.field_type),
+                      "TypeError": lambda s: NESTED(s.field_type)}
+
+    def post(s):
+        return DES_POST2(s, s.field_type)
+
+
+def PREFIX_READ(o, t):
+    """the implicit length prefix read at the old position"""
+    return BITSVAL(o._data, o._bit_offset, EFFECTIVE(o, AS(t, VARIABLE)._length_field_type._bit_length), unfold=False)
+
+
+@contract(SD + "_deserialize_array", props=P7)
+class _DesArray:
+    params = dict(reader=MutObjOf(READER), schema=ObjOf(ARRAY))
+    returns = AnyValue
+    modifies_params = {"reader": ["_bit_offset"]}
+    raises_only_if = {
+        # rejected, not clamped: a prefix above the capacity; nested element types may reject as well
+        "ArrayLengthError": lambda s: OR(AND(ISINST(s.schema, "VariableLengthArrayType"),
+                                             lambda: PREFIX_READ(s.old.reader, s.schema) > s.schema._capacity),
+                                         NESTED(s.schema._element_type)),
+        "SerDesError": lambda s: NESTED(s.schema._element_type),
+        "TypeError": lambda s: NESTED(s.schema._element_type),
+        # undecodable UTF-8 (UnicodeDecodeError is a ValueError); "unknown array type" for a class that is neither
+        "ValueError": lambda s: OR(NESTED(s.schema._element_type), ISINST(s.schema._element_type, "UTF8Type", "ByteType"),
+                                   NOT(ISINST(s.schema, "FixedLengthArrayType", "VariableLengthArrayType"))),
+    }
+
+    raises_here = {
+        "ArrayLengthError": lambda s: AND(ISINST(s.schema, "VariableLengthArrayType"),
+                                          lambda: PREFIX_READ(s.old.reader, s.schema) > s.schema._capacity),
+        "ValueError": lambda s: NOT(ISINST(s.schema, "FixedLengthArrayType", "VariableLengthArrayType")),
+    }
+
+    def post(s):
+        d = DES_POST2(s, s.schema)
+        d["length-not-clamped"] = IMPLIES(ISINST(s.schema, "VariableLengthArrayType"),
+                                          lambda: PREFIX_READ(s.old.reader, s.schema) <= s.schema._capacity)
+        return d
+
+
+@loop_invariant(SD + "_deserialize_array", loop=0)
+def _des_array_loop(s):
+    o, r = s.old.reader, s.reader
+    return {"frame": AND(SAME_BYTES(r._data, o._data), r._start_offset == o._start_offset, EQ(r._bit_limit, o._bit_limit)),
+            "forward": r._bit_offset >= o._bit_offset}
+
+
+@contract(SD + "_deserialize_composite", props=P7)
+class _DesComposite:
+    params = dict(reader=MutObjOf(READER), schema=ObjOf(COMPOSITE))
+    returns = AnyValue
+    modifies_params = {"reader": ["_bit_offset"]}
+    # TypeError: raised here only for a service type; a *field* of service type would propagate one too - impossible
+    # under the model invariant `fields-serializable` of the composite constructors (C02), which is not connected to the
+    # copying `fields` accessor here (documented gap: nested TypeError is allowed by this contract)
+    raises_only_if = {"SerDesError": lambda s: True, "ValueError": lambda s: True, "TypeError": lambda s: True}
+    # rejected, not clamped (exceptions raised by this function itself, as opposed to nested objects)
+    raises_here = {
+        "DelimiterHeaderError": lambda s: AND(ISINST(s.schema, "DelimitedType"),
+                                              lambda: 8 * HEADER_VALUE(s.old.reader, s.schema) > REMAINING_AFTER(s.old.reader, 32)),
+        "UnionTagError": lambda s: AND(ISINST(s.schema, "UnionType"), lambda: TAG_READ(s.old.reader, s.schema) >= LEN(FIELDS(s.schema))),
+        "ValueError": lambda s: NOT(ISINST(s.schema, "DelimitedType", "UnionType", "StructureType", "ServiceType")),
+        "TypeError": lambda s: ISINST(s.schema, "ServiceType"),
+    }
+
+    def post(s):
+        d = DES_POST2(s, s.schema)
+        d["not-a-service"] = NOT(ISINST(s.schema, "ServiceType"))
+        d["tag-not-clamped"] = IMPLIES(ISINST(s.schema, "UnionType"),
+                                       lambda: TAG_READ(s.old.reader, s.schema) < LEN(FIELDS(s.schema)))
+        return d
+
+
+def TAG_READ(o, t):
+    return BITSVAL(o._data, o._bit_offset, EFFECTIVE(o, AS(t, UNION)._tag_field_type._bit_length), unfold=False)
+
+
+@loop_invariant(SD + "_deserialize_composite", loop=0)
+def _des_struct_loop(s):
+    o, r = s.old.reader, s.reader
+    return {"frame": AND(SAME_BYTES(r._data, o._data), r._start_offset == o._start_offset, EQ(r._bit_limit, o._bit_limit)),
+            "forward": r._bit_offset >= o._bit_offset}
+
+
+def FIELDS_SERIALIZABLE(seq):
+    """no field of a composite is of a service type (established by the CompositeType constructors)"""
+    if smt():
+        from pyvc.loops import mk_forall
+
+        i = z3.FreshConst(z3.IntSort(), "fi")
+        body = NOT(ISINST(seq.at(speclib.CTX, i)._data_type, "ServiceType"))
+        return mk_forall([i], z3.Implies(z3.And(0 <= i, i < seq.length), body), patterns=[z3.Select(seq.arr, i)])
+    return all(type(f.data_type).__name__ != "ServiceType" for f in seq)
+
+
+def TOP_HEADER(data):
+    return BITSVAL(data, 0, 32, unfold=False)
+
+
+@contract(SD + "deserialize", props=["C06", "C07", "C14"])
+class _Deserialize:
+    params = dict(schema=ObjOf(COMPOSITE), data=Bytes, with_delimiter_header=Bool)
+    instances = lambda: [{"data": Bytes}, {"data": ByteArray}]
+    returns = AnyValue
+    raises_only_if = {"SerDesError": lambda s: True, "ValueError": lambda s: True, "TypeError": lambda s: True}
+    raises_here = {
+        "TypeError": lambda s: ISINST(s.schema, "ServiceType"),
+        "ValueError": lambda s: AND(s.with_delimiter_header, NOT(ISINST(s.schema, "DelimitedType"))),
+        # the header must not promise more than the data that follows it
+        "DelimiterHeaderError": lambda s: AND(s.with_delimiter_header, ISINST(s.schema, "DelimitedType"),
+                                              lambda: 8 * TOP_HEADER(s.data) > MAX0(8 * DLEN(s.data) - 32)),
+    }
+
+    def post(s):
+        return {
+            "not-a-service": NOT(ISINST(s.schema, "ServiceType")),
+            "header-flag-only-for-delimited": IMPLIES(s.with_delimiter_header, ISINST(s.schema, "DelimitedType")),
+            "header-not-clamped": IMPLIES(AND(s.with_delimiter_header, ISINST(s.schema, "DelimitedType")),
+                                          lambda: 8 * TOP_HEADER(s.data) <= MAX0(8 * DLEN(s.data) - 32)),
+        }
 
 
 # ------------------------------------------------------------------------------------------------ native harness
